@@ -875,6 +875,77 @@ shapes_c03(int thorough)
         }
 }
 
+/* first write far into a large fixed-size data set: the lead-in is filled in pieces by the library, the data must land at its
+   own position and everything in front of it must read as the fill value (fill mode on) */
+static const struct {
+    int32 rows, cols, row; /* int32 data set rows x cols, first write = whole row `row` */
+} BIGFIRST[] = {{700, 600, 650}, {700, 600, 417}, {1000, 300, 834}, {900, 500, 556}, {300, 1000, 251}, {2100, 250, 2000}};
+#define NBIGFIRST 6
+static void
+bigfirst_case(long idx, void *ctx)
+{
+    (void)ctx;
+    int   userfill = (int)(idx % 2), k = (int)(idx / 2);
+    int   cfg[3] = {-7, k, userfill};
+    int32 dims[2] = {BIGFIRST[k].rows, BIGFIRST[k].cols}, row = BIGFIRST[k].row;
+    mc_set_config(cfg, 3, "first write far into a %dx%d int32 data set", (int)dims[0], (int)dims[1]);
+    mc_set_case("%dx%d int32, %s fill value, first write is row %d (byte offset %ld), then row 3", (int)dims[0], (int)dims[1], userfill ? "user" : "default", (int)row,
+                (long)row * dims[1] * 4);
+    const char *path = "/vmem/c03big.hdf";
+    vfs_remove_file(path);
+    int32 sdid = SDstart(path, DFACC_CREATE), id = SDcreate(sdid, "big", DFNT_INT32, 2, dims);
+    int32 fill = userfill ? -7 : FILL_LONG;
+    if (userfill)
+        SDsetfillvalue(id, &fill);
+    int32 *rowbuf = malloc(sizeof(int32) * (size_t)dims[1]), *all = malloc(sizeof(int32) * (size_t)dims[0] * (size_t)dims[1]);
+    for (int j = 0; j < dims[1]; j++)
+        rowbuf[j] = 100000 + j;
+    int32 st[2] = {row, 0}, cn[2] = {1, dims[1]}, st0[2] = {0, 0};
+    if (id == FAIL || SDwritedata(id, st, NULL, cn, rowbuf) == FAIL) {
+        mc_violation("bigfirst:write-failed", "the first write (row %d) failed", (int)row);
+        return;
+    }
+    st[0] = 3;
+    for (int j = 0; j < dims[1]; j++)
+        rowbuf[j] = 200000 + j;
+    if (SDwritedata(id, st, NULL, cn, rowbuf) == FAIL)
+        mc_violation("bigfirst:write-failed", "the second write (row 3) failed");
+    for (int pass = 0; pass < 2; pass++) {
+        if (pass == 1) {
+            SDendaccess(id);
+            if (SDend(sdid) == FAIL) {
+                mc_violation("bigfirst:close", "SDend failed");
+                break;
+            }
+            sdid = SDstart(path, DFACC_READ);
+            id   = SDselect(sdid, 0);
+        }
+        memset(all, 0x5a, sizeof(int32) * (size_t)dims[0] * (size_t)dims[1]);
+        if (SDreaddata(id, st0, NULL, dims, all) == FAIL) {
+            mc_violation("bigfirst:read-failed", "%s: reading the whole data set failed", pass ? "after reopen" : "same session");
+            break;
+        }
+        long bad = 0, firstbad = -1;
+        for (long r = 0; r < dims[0]; r++)
+            for (long j = 0; j < dims[1]; j++) {
+                int32 want = r == row ? 100000 + (int32)j : r == 3 ? 200000 + (int32)j : fill;
+                /* rows behind the first write were never reached by any fill pass: their content is only defined up to the
+                   written row (the file ends there), the library supplies fill values */
+                if (all[r * dims[1] + j] != want) {
+                    if (!bad)
+                        firstbad = r * dims[1] + j;
+                    bad++;
+                }
+            }
+        if (bad)
+            mc_violation("bigfirst:value", "%s: %ld cells differ from the array model, first at [%ld][%ld] = %d", pass ? "after reopen" : "same session", bad, firstbad / dims[1],
+                         firstbad % dims[1], (int)all[firstbad]);
+    }
+    free(rowbuf);
+    free(all);
+    mc_count("bigfirst_cases", 1);
+}
+
 int
 C03_main(const char *tier, const char *replay)
 {
@@ -884,7 +955,13 @@ C03_main(const char *tier, const char *replay)
     if (replay) {
         int   cfg[32], ncfg, nops;
         mc_op ops[4];
-        if (mc_load_replay(replay, cfg, &ncfg, ops, &nops, 4) || ncfg < 20)
+        if (mc_load_replay(replay, cfg, &ncfg, ops, &nops, 4) || ncfg < 3)
+            return 2;
+        if (cfg[0] == -7) {
+            bigfirst_case(cfg[1] * 2L + cfg[2], NULL);
+            return 0;
+        }
+        if (ncfg < 20)
             return 2;
         dcfg c;
         cfg_from_replay(cfg, &c);
@@ -898,7 +975,10 @@ C03_main(const char *tier, const char *replay)
     mc_round_begin("every (shape,type,fill mode) x every history of <=2(3) slab writes x reads x out-of-range requests");
     mc_foreach(NPLAN, plan_case, NULL, 1, 600);
     mc_round_end();
-    mc_count("evaluations", mc_get("histories"));
+    mc_round_begin("first write far into a large fixed-size data set (lead-in filled in pieces)");
+    mc_foreach(2L * NBIGFIRST, bigfirst_case, NULL, 1, 300);
+    mc_round_end();
+    mc_count("evaluations", mc_get("histories") + mc_get("bigfirst_cases"));
     mc_rule("SD datasets of rank 1-4 (dims 1..4, 1..3^2, up to 3x2x3 and 2^4), fixed and with an unlimited first dimension (with SDsetblocksize variants and a "
             "second record variable of a different length in the same file), element sizes 1/2/4/8 with the full geometry and all 10 number types x 3 flavours "
             "on reduced geometry, fill mode FILL (default and user value) and NOFILL. Per configuration: every hyperslab made of one arithmetic progression per "
